@@ -129,6 +129,15 @@ func deSerializeMacaroon(urlSafeEncode string) (macaroon.Macaroon, error) {
 		return mac, err
 	}
 
-	err = mac.UnmarshalBinary(bin)
-	return mac, err
+	if err = mac.UnmarshalBinary(bin); err != nil {
+		return mac, err
+	}
+	// The decoders are lenient: line breaks and stray bits in the base64 text,
+	// bytes after the macaroon and the older binary format all decode to the
+	// same macaroon. A token is only ever issued in one spelling, so anything
+	// else has been altered.
+	if canonical, err := serializeMacaroon(mac); err != nil || canonical != urlSafeEncode || mac.Version() != macaroonVersion {
+		return mac, errors.New("token is not in the form it was issued in")
+	}
+	return mac, nil
 }
